@@ -61,7 +61,15 @@ type capModel struct {
 	advertised map[string]bool
 	held       map[string]bool
 	awaiting   bool // sasl acknowledged, mechanism announced, waiting for the server's "+"
+	startFails bool // the configured mechanism cannot be started (its Start() reports an error)
 }
+
+// brokenSasl is an application-supplied SASL mechanism that cannot start (say, its credentials file is
+// unreadable): sasl is still wanted, but an acknowledgement of it starts nothing.
+type brokenSasl struct{}
+
+func (brokenSasl) Start() (string, []byte, error) { return "", nil, fmt.Errorf("credentials unavailable") }
+func (brokenSasl) Next([]byte) ([]byte, error)    { return nil, fmt.Errorf("not started") }
 
 func newCapModel(sc *c19Scenario) *capModel {
 	m := &capModel{wanted: map[string]bool{}, advertised: map[string]bool{}, held: map[string]bool{}, mech: sc.Sasl}
@@ -78,6 +86,9 @@ func newCapModel(sc *c19Scenario) *capModel {
 	case "EXTERNAL":
 		m.wanted["sasl"] = true
 		m.ir = []byte(string(sc.Authzid))
+	case "BROKEN":
+		m.wanted["sasl"] = true
+		m.startFails = true
 	}
 	return m
 }
@@ -107,7 +118,7 @@ func (m *capModel) onACK(caps []string) []string {
 			m.held[c[1:]] = false
 		} else {
 			m.held[c] = true
-			if c == "sasl" && m.mech != "" {
+			if c == "sasl" && m.mech != "" && !m.startFails {
 				start = true
 			}
 		}
@@ -142,6 +153,8 @@ func runC19(sc *c19Scenario) *Violation {
 			cfg.Sasl = sasl.NewPlainClient(string(sc.Authzid), string(sc.User), string(sc.Pass))
 		case "EXTERNAL":
 			cfg.Sasl = sasl.NewExternalClient(string(sc.Authzid))
+		case "BROKEN":
+			cfg.Sasl = brokenSasl{}
 		}
 	}})
 	defer tc.shutdown()
@@ -533,6 +546,8 @@ func c19Configure(cfg *client.Config, sc *c19Scenario) []string {
 		cfg.Sasl = sasl.NewPlainClient(string(sc.Authzid), string(sc.User), string(sc.Pass))
 	case "EXTERNAL":
 		cfg.Sasl = sasl.NewExternalClient(string(sc.Authzid))
+	case "BROKEN":
+		cfg.Sasl = brokenSasl{}
 	default:
 		cfg.Sasl = nil
 	}
@@ -591,7 +606,7 @@ func genC19Session(t *rapid.T) *c19Session {
 	ss := &c19Session{}
 	n := rapid.IntRange(2, 3).Draw(t, "rounds")
 	for k := 0; k < n; k++ {
-		sc := c19Scenario{Sasl: rapid.SampledFrom([]string{"", "PLAIN", "PLAIN", "EXTERNAL"}).Draw(t, "sasl"), Authzid: "", User: "user", Pass: "p w",
+		sc := c19Scenario{Sasl: rapid.SampledFrom([]string{"", "PLAIN", "PLAIN", "EXTERNAL", "BROKEN"}).Draw(t, "sasl"), Authzid: "", User: "user", Pass: "p w",
 			Reply:   rapid.SampledFrom([]string{"ack", "ack", "nak", "ack_split", "ack_reversed", "two_ls", "ack_then_minus"}).Draw(t, "reply"),
 			Outcome: rapid.SampledFrom([]string{"903", "904", "908"}).Draw(t, "outcome"),
 			Stray:   rapid.IntRange(0, 3).Draw(t, "stray") == 0, EarlyEnd: rapid.IntRange(0, 3).Draw(t, "early_end") == 0,
@@ -696,14 +711,14 @@ func subsets(u []string) [][]string {
 }
 
 func TestC19_Enum(t *testing.T) {
-	col := evid.New("C19", "every combination of wanted subset of {a,b,z} x SASL none/PLAIN/EXTERNAL x advertised subset of {a,b,z,sasl} x server reply (ACK, NAK, ACK then ACK of '-cap', ACK split in two, ACK in reverse order, LS in two rounds) x SASL outcome (903, 904, 908+904) x stray AUTHENTICATE before the ACK, each run as a live session against the negotiation model; non-trivial = proper intersection, SASL started, or a '-cap' acknowledgement; distinct by construction")
+	col := evid.New("C19", "every combination of wanted subset of {a,b,z} x SASL none/PLAIN/EXTERNAL/a mechanism whose Start fails x advertised subset of {a,b,z,sasl} x server reply (ACK, NAK, ACK then ACK of '-cap', ACK split in two, ACK in reverse order, LS in two rounds) x SASL outcome (903, 904, 908+904) x stray AUTHENTICATE before the ACK, each run as a live session against the negotiation model; non-trivial = proper intersection, SASL started, or a '-cap' acknowledgement; distinct by construction")
 	defer finish(t, col)
 	shard, shards := envInt("VERIF_SHARD", 0), envInt("VERIF_SHARDS", 1)
 	var total, nt int64
 	i := 0
 	// "z" sorts after "sasl": the order of names within a line matters to some implementations
 	for _, wanted := range subsets([]string{"a", "b", "z"}) {
-		for _, sm := range []string{"", "PLAIN", "EXTERNAL"} {
+		for _, sm := range []string{"", "PLAIN", "EXTERNAL", "BROKEN"} {
 			for _, adv := range subsets([]string{"a", "b", "z", "sasl"}) {
 				for _, reply := range []string{"ack", "nak", "ack_then_minus", "ack_split", "ack_reversed", "two_ls"} {
 					for _, outcome := range []string{"903", "904", "908"} {
